@@ -857,6 +857,7 @@ func (f *Frame) setEdge(from, to *ssa.BasicBlock, c Term) {
 		f.backEdge(from, to, c)
 		return
 	}
+	f.exitEdge(from, to, c)
 	if old, ok := f.edge[key]; ok {
 		c = or(old, c)
 	}
